@@ -29,9 +29,12 @@ class Unsupported(Exception):
 
 
 class RadNF:
-    def __init__(self, units=()):
+    def __init__(self, units=(), positive=()):
         self.gens = {}        # (poly expr, q) -> generator symbol
         self.defs = {}        # generator -> (poly expr, q)
+        # polynomials the caller knows to be positive on the domain (e.g. ps - p0 for a compression):
+        # an irreducible factor that is the negative of one of them is re-oriented before roots are taken
+        self.positive = {sp.srepr(sp.expand(x)) for x in positive}
         for s in units:       # sign symbols: s**2 == 1
             self.defs[s] = (sp.Integer(1), 2)
 
@@ -48,35 +51,42 @@ class RadNF:
         p, q = e.p, e.q
         base = sp.together(base)
         num, den = sp.fraction(base)
-        out = sp.Integer(1)
+        content = sp.Integer(1)
+        factors = []                     # (irreducible factor or symbol, signed multiplicity)
         for poly, sign in ((num, 1), (den, -1)):
             poly = sp.expand(poly)
             if poly == 1:
                 continue
             if poly.is_number:
-                out *= poly ** (sign * e)
+                content *= poly ** sign
                 continue
-            c, factors = sp.factor_list(poly)
-            if c.is_number and c < 0:
-                # pull the sign into the first factor of odd multiplicity
-                for i, (f, m) in enumerate(factors):
-                    if m % 2 == 1:
-                        factors[i] = (sp.expand(-f), m)
-                        c = -c
-                        break
-                else:
-                    raise Unsupported('root of a negative constant')
-            if c != 1:
-                out *= c ** (sign * e)
-            for f, m in factors:
-                if f.is_Symbol:
-                    out *= f ** (sign * m * e)
-                    continue
-                f = sp.expand(f)
-                # whole part and remainder of m*p/q
-                k = m * p
-                s = self.gen(f, q)
-                out *= s ** (sign * k)
+            c, fl = sp.factor_list(poly)
+            content *= c ** sign
+            for f, m in fl:
+                if not f.is_Symbol:
+                    f = sp.expand(f)
+                    if sp.srepr(sp.expand(-f)) in self.positive:
+                        f = sp.expand(-f)
+                        content *= (-1) ** m
+                factors.append((f, sign * m))
+        # the sign of the WHOLE radicand: factor_list orients every factor canonically and leaves the sign
+        # in the content; only an overall negative sign has to be moved into a factor
+        if content.is_number and content < 0:
+            if q % 2 == 1:
+                raise Unsupported('odd root of a negative content')
+            for i, (f, m) in enumerate(factors):
+                if m % 2 != 0 and not f.is_Symbol:
+                    factors[i] = (sp.expand(-f), m)
+                    content = -content
+                    break
+            else:
+                raise Unsupported('root of a negative quantity')
+        out = content ** e if content != 1 else sp.Integer(1)
+        for f, m in factors:
+            if f.is_Symbol:
+                out *= f ** (m * e)
+            else:
+                out *= self.gen(f, q) ** (m * p)
         return out
 
     def rewrite(self, expr):
